@@ -20,7 +20,8 @@ from lenskit.pipeline import Component
 class SynthConfig:
     seed: int = 0
     levels: int = 4
-    nan_num: int = 0          # NaN odds out of 8
+    nan_num: int = 0          # NaN odds out of nan_den
+    nan_den: int = 8          # (a large denominator with nan_num close to it: a model that can score only a handful of a long list)
     mode: str = "item"        # "item" | "user" | "hist"
     scores: bool = True
     f32: bool = False
@@ -47,7 +48,7 @@ class SynthScorer(Component[ItemList]):
         vals = []
         for i in items.ids().tolist():
             h = _h(c.seed, user, _plain(i), hl)
-            if h % 8 < c.nan_num:
+            if h % c.nan_den < c.nan_num:
                 vals.append(np.nan)
             else:
                 vals.append(((h >> 8) % c.levels) / 4.0 - 0.5 + (0.1 if c.f32 else 0.0))
